@@ -204,6 +204,49 @@ RichUnary(m) ==
       ELSE <<>>)
 
 -----------------------------------------------------------------------------
+(* Family "fault" (C14): staged programs                                   *)
+(*   source . failing map . [middle] . catch form . [top]                  *)
+(* stage 1: the mapped function raises class c exactly on the examples of  *)
+(*          EVERY subset of positions (sources hold 1..n), and on the      *)
+(*          predicate families;                                            *)
+(* stage 2: something between the failing stage and the catch;             *)
+(* stage 3: every catch form (catch(E) for all E, thread prefetch with     *)
+(*          catch_filter_exception) and the eager operations that must     *)
+(*          propagate the failure (eager filter, sort, eager cache);       *)
+(* stage 4: consumers on top (items(), map, batch).                        *)
+FaultCat(d, m) ==
+  LET n == NOf(m) IN
+  CASE d = 0 ->
+         LET subs == SetToSeq(SUBSET (1..n))
+         IN FlatSeq([c \in 1..Len(FailClasses) |->
+              [j \in 1..Len(subs) |->
+                 [op |-> "fmap", p |-> [pn |-> "insz", sz |-> SetToSeq(subs[j])],
+                  cls |-> FailClasses[c]]]])
+            \o <<[op |-> "fmap", p |-> P("even"), cls |-> "FilterException"],
+                 [op |-> "fmap", p |-> P("odd"), cls |-> "SubFilterException"],
+                 [op |-> "fmap", p |-> P("gt1"), cls |-> "UserValueError"],
+                 [op |-> "fmap", p |-> P("always"), cls |-> "FilterException"],
+                 [op |-> "fmap", p |-> P("never"), cls |-> "UserKeyError"]>>
+    [] d = 1 ->
+         <<[op |-> "copy", freeze |-> FALSE], [op |-> "map", f |-> "inc"],
+           [op |-> "batch", b |-> 2, drop |-> FALSE], SL(NONE, NONE, 0 - 1),
+           [op |-> "items"], [op |-> "cache", lazy |-> TRUE],
+           [op |-> "fmap", p |-> [pn |-> "insz", sz |-> <<2>>], cls |-> "UserValueError"]>>
+    [] d = 2 ->
+         [c \in 1..Len(CatchNames) |-> [op |-> "catch", E |-> CatchNames[c]]]
+         \o <<[op |-> "prefetch", w |-> 1, bs |-> 2, cfe |-> "Filter"],
+              [op |-> "prefetch", w |-> 2, bs |-> 2, cfe |-> "Filter"],
+              [op |-> "prefetch", w |-> 2, bs |-> 3, cfe |-> "FilterOrValue"],
+              [op |-> "prefetch", w |-> 1, bs |-> 1, cfe |-> "none"],
+              [op |-> "filter", p |-> P("even"), lazy |-> FALSE],
+              [op |-> "filter", p |-> P("even"), lazy |-> TRUE],
+              [op |-> "sort", key |-> "neg", rev |-> FALSE],
+              [op |-> "cache", lazy |-> FALSE]>>
+    [] OTHER ->
+         <<[op |-> "items"], [op |-> "map", f |-> "wrap"], [op |-> "batch", b |-> 2, drop |-> TRUE],
+           [op |-> "catch", E |-> "Exception"]>>
+
+-----------------------------------------------------------------------------
 MO == ModelObs(prog)
 Extendable == prog.op # "cycle" /\ MO.build = "ok"
 
@@ -218,7 +261,11 @@ Next ==
   /\ depth' = depth + 1
   /\ LET m == MO IN
      /\ prog.op # "cycle" /\ m.build = "ok"
-     /\ \/ /\ rich' = rich
+     /\ IF Family = "fault"
+        THEN /\ rich' = rich
+             /\ LET fc == FaultCat(depth, m) IN \E j \in 1..Len(fc) : prog' = Apply(fc[j], prog)
+        ELSE
+        \/ /\ rich' = rich
            /\ LET ru == ReducedUnary(m) IN
               \/ \E j \in 1..Len(ru) : prog' = Apply(ru[j], prog)
               \/ \E j \in 1..Len(BinOps) : prog' = Apply2([op |-> BinOps[j]], prog, prog)
@@ -235,7 +282,8 @@ Spec == Init /\ [][Next]_vars
 
 \* verdicts of the design itself (model observation judged by the properties)
 ModelVerdicts ==
-  [c01 |-> V_C01(prog, MO, MO), c02 |-> V_C02(prog, MO), c03 |-> V_C03(prog, MO)]
+  [c01 |-> V_C01(prog, MO, MO), c02 |-> V_C02(prog, MO), c03 |-> V_C03(prog, MO),
+   c14 |-> V_C14(prog, MO, MO), c18 |-> V_C18(prog, MO)]
 
 \* always true; its side effect hands the program to the harness
 EmitProgram == PrintT(<<"VEC", ToJson([prog |-> prog, mv |-> ModelVerdicts])>>)
